@@ -126,6 +126,54 @@ Example c06_grid_nonvacuous :
   grid_of_circuit 9 25 ex_rows ex_cells = ([9; 36; 63; 91]%Z, [0; 20]%Z).
 Proof. vm_compute. split; reflexivity. Qed.
 
+(* [F] finding F28, repaired code (density_grid.cpp:45-51): when NO free row survives the clipping -- every row is
+   covered by fixed obstructions, or only pieces not wider than twice the margin remain -- the placement area of the
+   grid is the bounding box R of the circuit's rows (before the repair: (0,0,0,0), every cell exposed at the origin)
+   and the bin limits are those of R, strictly increasing inside R in every direction in which R has extent *)
+Theorem c06_grid_without_free_space : forall margin maxSize rows cells,
+  (1 <= maxSize)%Z ->
+  clip_rows margin (map rr (compute_rows_circuit rows [] cells)) = [] ->
+  let R := bbox (map rr rows) in
+  circuit_grid_area margin rows cells = R /\
+  grid_of_circuit margin maxSize rows cells = (limits (minX R) (maxX R) maxSize, limits (minY R) (maxY R) maxSize) /\
+  ((minX R < maxX R)%Z -> limits_ok (minX R) (maxX R) (fst (grid_of_circuit margin maxSize rows cells))) /\
+  ((minY R < maxY R)%Z -> limits_ok (minY R) (maxY R) (snd (grid_of_circuit margin maxSize rows cells))).
+Proof. exact grid_of_circuit_without_free_space. Qed.
+
+(* [F] EVERY circuit that has a row of positive width and height, any fixed cells and obstructions, no hypothesis on
+   what the clipping leaves: the placement area a of the density grid is a non-degenerate rectangle inside the bounding
+   box R of the rows and all bin limits lie inside R, strictly increasing.  These are the `limits_ok L H lims` that
+   c06_ub_centre_inside asks for with [L,H] = the rows' bounding box, and the `alo <= ahi` of c06_no_bin_centre *)
+Theorem c06_grid_limits_inside_rows_bbox_all : forall margin maxSize rows cells lx ly,
+  (0 <= margin)%Z -> (1 <= maxSize)%Z -> has_proper_row rows ->
+  grid_of_circuit margin maxSize rows cells = (lx, ly) ->
+  let a := circuit_grid_area margin rows cells in
+  let R := bbox (map rr rows) in
+  rect_in a R /\ (minX a < maxX a)%Z /\ (minY a < maxY a)%Z /\
+  limits_ok (minX a) (maxX a) lx /\ limits_ok (minY a) (maxY a) ly /\
+  limits_ok (minX R) (maxX R) lx /\ limits_ok (minY R) (maxY R) ly.
+Proof. exact grid_of_circuit_limits_all. Qed.
+
+(* the first row is covered by an obstruction; of the second one a piece 17 wide remains, which the margin 9 removes:
+   no clipped row is left and the grid is the one of the rows' bounding box [50,150]x[20,40] *)
+Definition nf_rows := [ {| rr := {| minX := 50; maxX := 150; minY := 20; maxY := 30 |}; ro := oN |};
+                        {| rr := {| minX := 50; maxX := 150; minY := 30; maxY := 40 |}; ro := oFS |} ].
+Definition nf_cells : list (Z * Z * Z * Z * orient * bool * bool) :=
+  [ (40%Z, 15%Z, 200%Z, 15%Z, oN, true, true); (67%Z, 30%Z, 90%Z, 10%Z, oN, true, true);
+    (60%Z, 20%Z, 4%Z, 10%Z, oN, false, false) ].
+
+Example c06_grid_without_free_space_nonvacuous :
+  map rr (compute_rows_circuit nf_rows [] nf_cells) = [ {| minX := 50; maxX := 67; minY := 30; maxY := 40 |} ] /\
+  clip_rows 9 (map rr (compute_rows_circuit nf_rows [] nf_cells)) = [] /\
+  has_proper_row nf_rows /\
+  circuit_grid_area 9 nf_rows nf_cells = {| minX := 50; maxX := 150; minY := 20; maxY := 40 |} /\
+  grid_of_circuit 9 25 nf_rows nf_cells = ([50; 75; 100; 125; 150]%Z, [20; 40]%Z).
+Proof.
+  split; [vm_compute; reflexivity|]. split; [vm_compute; reflexivity|]. split.
+  - eexists. split; [left; reflexivity|]. simpl. split; reflexivity.
+  - split; vm_compute; reflexivity.
+Qed.
+
 (* ---------------------------------------------------------------- export *)
 
 (* [F] a centre strictly inside an interval with integer ends is exposed (lower-left rounded by std::round, centre
@@ -148,7 +196,8 @@ Example c06_export_nonvacuous :
 Proof. vm_compute. repeat split; reflexivity. Qed.
 
 (* [F] upper-bound placements, one direction: lims are grid limits (strictly increasing inside [L,H], e.g. the
-   bounding box of the rows by c06_grid_limits_inside_rows_bbox), the bin of the cell spans lims[i]..lims[j]: the
+   bounding box of the rows by c06_grid_limits_inside_rows_bbox_all, for every circuit with a row of positive width and
+   height, whatever the obstructions leave), the bin of the cell spans lims[i]..lims[j]: the
    exposed centre of every cell of positive demand lies in [L,H] *)
 Theorem c06_ub_centre_inside : forall L H lims alo ahi bins target demand b c i j w,
   limits_ok L H lims ->
@@ -360,6 +409,8 @@ Print Assumptions c06_spread_coord_orig_no_bin.
 Print Assumptions c06_spread_coord_orig_zero_area_refuted.
 Print Assumptions c06_limits_inside.
 Print Assumptions c06_grid_limits_inside_rows_bbox.
+Print Assumptions c06_grid_without_free_space.
+Print Assumptions c06_grid_limits_inside_rows_bbox_all.
 Print Assumptions c06_exported_centre_strict.
 Print Assumptions c06_exported_centre_closed.
 Print Assumptions c06_ub_centre_inside.
